@@ -95,7 +95,7 @@ func genCloseSpec(seed uint64, tier string) *spec.RunSpec {
 	}
 	cs := &spec.CloseSpec{HorizonUs: 120000000}
 	idleChoices := []int64{0, 1000, 300000, 2000000, 4900000, 5100000, 7000000, 12000000, 65000000}
-	profile := r.Pick(0, 0, 1, 2, 3, 4, 5, 6, 7, 7) // 0 plain close, 1 back-pressure, 2 deadlines, 3 stop events, 4 underlay failure, 5 stop/failure under back-pressure, 6 one-way use, 7 stop while the network is silent
+	profile := r.Pick(0, 0, 1, 2, 3, 4, 5, 5, 6, 7, 7) // 0 plain close, 1 back-pressure, 2 deadlines, 3 stop events, 4 underlay failure, 5 stop/failure under back-pressure, 6 one-way use, 7 stop while the network is silent
 	s.Profile = fmt.Sprintf("c15-%s-%s", tr, []string{"close", "backpressure", "deadlines", "stop", "failure", "backpressure-stop", "oneway", "silent-then-stop"}[profile])
 	bpWriterSide := ""
 	for ci, c := range s.Clients {
@@ -117,7 +117,12 @@ func genCloseSpec(seed uint64, tier string) *spec.RunSpec {
 			case 5: // as 1, but nobody closes the session: a Stop or an underlay failure arrives while the writer is blocked
 				writerSide, readerSide := closer, other
 				bpWriterSide = writerSide
-				add(writerSide, "writer", spec.AOp{Op: "write", N: r.Pick(1, 1, 200, 1400), Count: r.Pick(3000, 4500, 6000)})
+				// enough volume to fill the peer's session queue AND the transport underneath, so
+				// that the sender's output loop itself is blocked in the connection's Write
+				if s.Net.RecvBuf == 0 {
+					s.Net.RecvBuf = r.Pick(4096, 65536)
+				}
+				add(writerSide, "writer", spec.AOp{Op: "write", N: r.Pick(1, 200, 1400, 1400), Count: r.Pick(4500, 6000)})
 				add(readerSide, "stuck-reader", spec.AOp{Op: "read", N: 64, Count: r.Pick(0, 1, 3)}, spec.AOp{Op: "sleep", Us: 400000000})
 			case 6: // one-way use: one end only writes (never calls Read) and closes; the other end only reads
 				writerSide, readerSide := closer, other
